@@ -56,6 +56,13 @@ func DecodeURL(logger s3log.AuditLogger, mm *metrics.Manager) fiber.Handler {
 		if !utils.IsPathComponentValid(ctx.Query("uploadId")) {
 			return controllers.SendResponse(ctx, s3err.GetAPIError(s3err.ErrNoSuchUpload), &controllers.MetaOpts{Logger: logger, MetricsMng: mm})
 		}
+		// an upload id that is given but empty names no upload: joined to
+		// the staging directory of the key it would designate that
+		// directory itself (UploadPart), and the handlers that test for a
+		// non-empty id would take the request for a different operation
+		if args := ctx.Request().URI().QueryArgs(); args.Has("uploadId") && len(args.Peek("uploadId")) == 0 {
+			return controllers.SendResponse(ctx, s3err.GetAPIError(s3err.ErrNoSuchUpload), &controllers.MetaOpts{Logger: logger, MetricsMng: mm})
+		}
 		ctx.Path(unescp)
 		return ctx.Next()
 	}
